@@ -44,6 +44,24 @@ func VerifLRUEntries[K comparable, V any](s Store[K, V]) (_ []VerifEntry[K, V], 
 	return out, true, nil
 }
 
+// VerifAdvanceClock adds delta to the logical access clock of the LRU store s
+// (holding the lock of c when c is not nil), so that a monitor can take the
+// clock across 2^31, 2^32 or 2^62 without performing that many accesses. The
+// relative recency of the entries is not changed. It reports false if s is not
+// the store created by LRU.
+func VerifAdvanceClock[K comparable, V any](c *Cache[K, V], s Store[K, V], delta int64) bool {
+	ls, ok := s.(*lruStore[K, V])
+	if !ok {
+		return false
+	}
+	if c != nil {
+		c.μ.Lock()
+		defer c.μ.Unlock()
+	}
+	ls.clock += delta
+	return true
+}
+
 // VerifCheck checks, while holding the cache lock, that the accounting fields
 // agree with the contents of the store: size is the sum of the sizes of the
 // stored values and does not exceed the limit, and count is their number.
